@@ -7,7 +7,9 @@ use rand::Rng;
 use serde_json::{json, Value};
 use stun_agent::verif::VerifLongTerm;
 
-pub const OTHER_REALM: &str = "other.example.net";
+/// contains a lead character followed by NO-BREAK SPACE: the only kind of realm the crate's quoted-string
+/// grammar accepts that OpaqueString processing changes (the key is derived from the mapped form)
+pub const OTHER_REALM: &str = "other\u{c3}\u{a0}realm.example";
 /// content of the duplicated REALM attribute the harness server may add (the only REALM of a 401
 /// built with realm "absent", and then legitimately the client's realm)
 pub const DUP_REALM: &str = "dup.realm";
